@@ -121,6 +121,12 @@ def gen_additivity(rng, tier):
         d["transtype"] = rng.choice(["topdown", "inorder"])
     if kind == "analysis":
         d["task"] = rng.choice(["GapDegree", "PosTags", "SentenceCount"])
+    if fmt in ("export", "brackets", "discobrackets") and rng.random() < 0.35:
+        # K8 on the second treebank: the files are frameless, so file(A+B) = file(A) + file(B)
+        # byte for byte; what is produced for the (damaged) sentences of B must be the same
+        # alone and after A
+        d["damageB"] = {"how": rng.choice(["drop_word", "truncate", "stray_text", "drop_word"]),
+                        "seed": rng.randrange(1 << 30)}
     return d
 
 
@@ -386,14 +392,34 @@ def fin(sc, st, viols):
 
 
 # ---------------------------------------------------------------------------------- additivity
-def add_session(sc, tb, name):
+def damage_bytes(data, dmg, fmt):
+    rng = random.Random(dmg["seed"])
+    lines = data.split(b"\n")
+    how = dmg["how"]
+    if how == "truncate":
+        return data[:rng.randrange(max(1, len(data)))]
+    if how == "stray_text":
+        k = rng.randrange(len(lines))
+        return b"\n".join(lines[:k] + [rng.choice([b"", b"%% note", b"  "])] + lines[k:])
+    # drop_word: remove the last field / word of one non-empty line
+    cand = [i for i, l in enumerate(lines) if l.strip() and not l.startswith(b"#")]
+    if not cand:
+        return data
+    k = rng.choice(cand)
+    parts = lines[k].rstrip().rsplit(b" " if fmt != "export" else b"\t", 1)
+    if len(parts) == 2:
+        lines[k] = parts[0]
+    return b"\n".join(lines)
+
+
+def add_session(sc, tb, name, raw=None):
     """One session (ops, files, dest) running the scenario's pipeline over treebank tb."""
     kind, fmt = sc["kind"], sc["fmt"]
     codec, ext = sl.SRC[fmt]
     base = "/sim/w/%s" % name
     path = "%s/in%s" % (base, ext)
-    files = {path: cm.render_file({"tb": tb, "codec": codec, "layout": sc["layout"],
-                                   "enc": "utf-8"})}
+    files = {path: raw if raw is not None else
+             cm.render_file({"tb": tb, "codec": codec, "layout": sc["layout"], "enc": "utf-8"})}
     dest = None
     if kind in ("convert", "cli_transform"):
         dfmt = sc["dest_fmt"]
@@ -436,8 +462,8 @@ def add_session(sc, tb, name):
     return {"id": name, "ops": ops}, files, dest, base
 
 
-def run_one(sc, sim, tb, name, st):
-    s, files, dest, base = add_session(sc, tb, name)
+def run_one(sc, sim, tb, name, st, raw=None):
+    s, files, dest, base = add_session(sc, tb, name, raw)
     obs = sim.run({"files": files, "dirs": [base], "sessions": [s], "io_seed": sc["io_seed"]})
     st.add_obs(obs)
     return obs, dest
@@ -465,12 +491,25 @@ def sum_lex(a, b):
 
 def execute_additivity(sc, sim):
     st = cm.Stats()
-    st.declare("additivity_triples", "permutation_runs", "trees_dropped_by_pipeline")
+    st.declare("additivity_triples", "permutation_runs", "trees_dropped_by_pipeline",
+               "additivity_with_damaged_second_treebank",
+               "damaged_treebank_rejected_alone_and_in_company")
     A, B = sc["A"], sc["B"]
     AB = A + B
     kind = sc["kind"]
     tag = "%s/%s" % (kind, sc.get("dest_fmt") or sc.get("transtype") or sc.get("task") or
                      ("markov" if sc.get("gmode") else "raw"))
+    if sc.get("damageB"):
+        codec, _ = sl.SRC[sc["fmt"]]
+        ra = cm.render_file({"tb": A, "codec": codec, "layout": sc["layout"], "enc": "utf-8"})
+        rb = damage_bytes(cm.render_file({"tb": B, "codec": codec, "layout": sc["layout"] + 7,
+                                          "enc": "utf-8"}), sc["damageB"], sc["fmt"])
+        oa, da = run_one(sc, sim, A, "A", st, raw=ra)
+        ob, db = run_one(sc, sim, B, "B", st, raw=rb)
+        oab, dab = run_one(sc, sim, AB, "AB", st, raw=ra + rb)
+        st.fault("damage")
+        st.probe("additivity_with_damaged_second_treebank")
+        return judge_damaged_additivity(sc, st, tag, (oa, da), (ob, db), (oab, dab))
     oa, da = run_one(sc, sim, A, "A", st)
     ob, db = run_one(sc, sim, B, "B", st)
     oab, dab = run_one(sc, sim, AB, "AB", st)
@@ -579,6 +618,57 @@ def execute_additivity(sc, sim):
                 lp = op_["files"].get(dp, b"").split(b"\n")[:-1]
                 if len(la) == len(lp) == len(AB) and [la[j] for j in order] != lp:
                     viols.append(cm.viol("C18/permutation/%s/lines-not-permuted" % tag))
+    return fin(sc, st, viols)
+
+
+def judge_damaged_additivity(sc, st, tag, a, b, ab):
+    """Byte-level concatenation with a damaged second file: failure is additive, and when
+    nothing fails the sentence-wise outputs concatenate (compared as raw trees / bytes)."""
+    (oa, da), (ob, db), (oab, dab) = a, b, ab
+
+    def failed(o, n):
+        return any("exc" in r for r in o["sessions"][n]) or o.get("hang")
+    fa, fb, fab = failed(oa, "A"), failed(ob, "B"), failed(oab, "AB")
+    if fa:
+        return fin(sc, st, [])
+    if fb != fab:
+        return fin(sc, st, [cm.viol("C18/additivity-damaged/%s/failure-not-additive" % tag,
+                                    b_failed=fb, ab_failed=fab, damage=sc["damageB"])])
+    if fb:
+        st.probe("damaged_treebank_rejected_alone_and_in_company")
+        return fin(sc, st, [])
+    kind = sc["kind"]
+    viols = []
+    if kind in ("convert", "cli_transform", "transitions"):
+        fa_, fb_, fab_ = [o["files"].get(d, b"") for o, d in ((oa, da), (ob, db), (oab, dab))]
+        dfmt = sc.get("dest_fmt")
+        if kind == "transitions" or dfmt in ("terminals", "brackets", "discobrackets"):
+            if fa_ + fb_ != fab_:
+                viols.append(cm.viol("C18/additivity-damaged/%s/not-the-concatenation" % tag,
+                                     damage=sc["damageB"]))
+        else:
+            try:
+                xa = c03.decode_dest(fa_, dfmt, "utf-8", sc["dopts"])
+                xb = c03.decode_dest(fb_, dfmt, "utf-8", sc["dopts"])
+                xab = c03.decode_dest(fab_, dfmt, "utf-8", sc["dopts"])
+            except rc.DecodeError:
+                return fin(sc, st, [])
+            v = cmp_seq(xa + xb, xab, dfmt, sc, tag + "/damaged", "concatenation",
+                        ignore_sid=True)
+            if v:
+                v["detail"]["damage"] = sc["damageB"]
+                viols.append(v)
+    elif kind == "grammar":
+        da_ = [r["ok"] for r in oa["sessions"]["A"] if r["op"] == "gdump"]
+        db_ = [r["ok"] for r in ob["sessions"]["B"] if r["op"] == "gdump"]
+        dab_ = [r["ok"] for r in oab["sessions"]["AB"] if r["op"] == "gdump"]
+        if da_ and db_ and dab_:
+            ga, la = refgram.from_dump(da_[0])
+            gb, lb = refgram.from_dump(db_[0])
+            gab, lab = refgram.from_dump(dab_[0])
+            if sum_grammars(ga, gb) != gab or sum_lex(la, lb) != lab:
+                viols.append(cm.viol("C18/additivity-damaged/grammar/raw-not-the-sum",
+                                     damage=sc["damageB"]))
     return fin(sc, st, viols)
 
 
